@@ -39,6 +39,13 @@ func (c c06Case) build(w *World, key string, payload []byte, sizes []int) (*gw.R
 		path = gw.ObjPath(w.Bucket, w.MpKey)
 		query = gw.Q("uploadId", w.UploadID, "partNumber", "4")
 	}
+	if c.Op == "complete" {
+		// completion of the fixture's upload (created without a checksum algorithm) that asserts an object checksum
+		r := NewReq("POST", gw.ObjPath(w.Bucket, w.MpKey), gw.Q("uploadId", w.UploadID), nil, []byte("<CompleteMultipartUpload><Part><PartNumber>1</PartNumber><ETag>"+w.PartETag+"</ETag></Part></CompleteMultipartUpload>"))
+		r.Set("x-amz-checksum-"+c.Algo, gw.Checksum(c.Algo, []byte("not what the parts add up to")))
+		gw.Sign(r, gw.Root, gw.SignOpts{})
+		return r, c.Corrupt == "wrong-object-checksum-on-completion"
+	}
 	r := &gw.Req{Method: "PUT", Path: path, Query: query}
 	body := append([]byte{}, payload...)
 	applied := c.Corrupt == ""
@@ -109,6 +116,22 @@ func (c c06Case) build(w *World, key string, payload []byte, sizes []int) (*gw.R
 	switch c.Mode {
 	case "signed":
 		r.Body = body
+		switch c.Corrupt {
+		case "decoded-length-0-beside-copy-source-slash":
+			// a declared (decoded) length of 0 beside a body, on a request shape the upload detection and the handlers
+			// classify differently
+			if c.Op == "put" {
+				r.Set("X-Amz-Decoded-Content-Length", "0")
+				r.Set("X-Amz-Copy-Source", "/")
+				applied = len(body) > 0
+			}
+		case "decoded-length-0-beside-acl-parameter":
+			if c.Op == "part" {
+				r.Set("X-Amz-Decoded-Content-Length", "0")
+				r.Query += "&acl"
+				applied = len(body) > 0
+			}
+		}
 		gw.Sign(r, gw.Root, gw.SignOpts{})
 		if c.Corrupt == "wrong-content-sha256" {
 			// a well-formed but wrong payload hash, correctly signed
@@ -271,7 +294,7 @@ func (c c06Case) corruptStream(enc []byte, spans []gw.ChunkSpan, applied, hasTra
 }
 
 func C06(r *ck.Run) {
-	r.Rule("upload mode {signed, UNSIGNED-PAYLOAD, presigned, streaming signed, streaming signed+trailer, streaming unsigned+trailer} × {PutObject, UploadPart} × integrity field × corruption (bit flip at EVERY payload offset, wrong declared value of every field, every chunk/trailer signature, every chunk signature emptied, an unsigned chunk spliced in front of every chunk, truncation after every chunk / inside every header / inside data, extra bytes, declared decoded length ±1 and ×2) × prior key state (new, existing, directory-object key with and without data; versioned in the thorough tier) × 3 request fragmentations, end-to-end with byte-exact storage snapshots; distinct = (config, case, key state, fragmentation)")
+	r.Rule("upload mode {signed, UNSIGNED-PAYLOAD, presigned, streaming signed, streaming signed+trailer, streaming unsigned+trailer} × {PutObject, UploadPart} (and CompleteMultipartUpload asserting a wrong object checksum) × integrity field × corruption (bit flip at EVERY payload offset, wrong declared value of every field, every chunk/trailer signature, every chunk signature emptied, an unsigned chunk spliced in front of every chunk, truncation after every chunk / inside every header / inside data, extra bytes, declared decoded length ±1 and ×2) × prior key state (new, existing, directory-object key with and without data; versioned in the thorough tier) × 3 request fragmentations, end-to-end with byte-exact storage snapshots; distinct = (config, case, key state, fragmentation)")
 	r.Assume("an upload with UNSIGNED-PAYLOAD / presigned and neither Content-MD5 nor a checksum header carries no assertion about the payload bytes, so bit flips are not applied there")
 	cfgs := []gw.Opts{{}, {Sidecar: true}}
 	if r.Thorough() {
@@ -315,7 +338,7 @@ func C06(r *ck.Run) {
 					for off := 0; off < len(payload); off++ {
 						add("bit-flip", off)
 					}
-					for _, k := range []string{"wrong-content-md5", "malformed-content-md5", "wrong-checksum-header", "content-md5-letter-case-flipped", "checksum-header-letter-case-flipped", "wrong-content-sha256", "declared-length-plus-1", "declared-length-minus-1", "declared-length-double",
+					for _, k := range []string{"decoded-length-0-beside-copy-source-slash", "decoded-length-0-beside-acl-parameter", "wrong-content-md5", "malformed-content-md5", "wrong-checksum-header", "content-md5-letter-case-flipped", "checksum-header-letter-case-flipped", "wrong-content-sha256", "declared-length-plus-1", "declared-length-minus-1", "declared-length-double",
 						"trailer-checksum", "trailer-signature", "truncate-final-crlf", "extra-bytes-after-final-chunk", "extra-garbage-after-final-chunk"} {
 						add(k, 0)
 					}
@@ -355,6 +378,9 @@ func C06(r *ck.Run) {
 			}
 		}
 	}
+	for _, a := range algos {
+		cases = append(cases, c06Case{Op: "complete", Mode: "signed", Algo: a, Corrupt: "wrong-object-checksum-on-completion"})
+	}
 	frags := [][]int{nil, {300}, {1 << 20}} // whole; head cut early; see below (last one replaced per request)
 	r.Sharded(16, func() {
 		idx := 0
@@ -378,7 +404,7 @@ func C06(r *ck.Run) {
 					continue
 				}
 				for _, key := range []string{"c06new", w.Key, "c06dir/", "c06dir-with-data/"} {
-					if c.Op == "part" && key != "c06new" {
+					if (c.Op == "part" || c.Op == "complete") && key != "c06new" {
 						continue
 					}
 					if strings.HasSuffix(key, "/") && c.Big {
@@ -425,6 +451,9 @@ func C06(r *ck.Run) {
 						}
 						if c.Op == "part" {
 							state = "part"
+						}
+						if c.Op == "complete" {
+							state = "upload-without-checksum-algorithm"
 						}
 						if c.Corrupt != "" {
 							r.Outcome(fmt.Sprintf("corrupt:%d", resp.Status/100))
